@@ -61,11 +61,11 @@ def case_of_line(trace_lines, line):
 
 
 DRIVERS = {
-    "iour": {"model": "IourDriver", "quick": ["sm", "sb"], "thorough": ["sm", "sb", "ss2", "smb"],
+    "iour": {"model": "IourDriver", "quick": ["sm", "sb", "sz"], "thorough": ["sm", "sb", "sz", "ss2", "smb"],
              "optional_actions": ("PushBlocking", "PoolRun", "KMore", "DropChan"),
              "live": {"C02": "live_c02", "C05": "live_c05"},
              "controls": {"C01": [("olddrain", "Safe")], "C05": [("live_oldcancel", "CancelPrompt")]},
-             "gen": ["Gen_IourDriver.cfg"]},
+             "gen": ["Gen_IourDriver.cfg", "Gen_IourDriver_z.cfg"]},
     "poll": {"model": "PollDriver", "quick": ["sss"], "thorough": ["sss", "ssb"],
              "optional_actions": ("PushBlocking", "PoolRun", "DropChan"),
              "live": {"C02": "live_c02", "C05": "live_c05"},
